@@ -319,6 +319,13 @@ func HarnessC04_RingAdoption() {
 	}
 	vfAssume(tomb.st == LEFT)
 	old, had := pre.gen[vfIDs[0]]
+	if had && vfChoice("tombstone_carries_tokens", 2) == 1 {
+		// a peer's tombstone that still lists the tokens the replica knows (older
+		// writers, or a removal stamped over a copy of the live entry)
+		e := in.d.Ingesters[vfIDs[0]]
+		e.Tokens = append([]uint32(nil), pre.d.Ingesters[vfIDs[0]].Tokens...)
+		in.d.Ingesters[vfIDs[0]] = e
+	}
 	st := vfCloneDesc(pre.d)
 	chM, err := st.mergeWithTime(vfCloneDesc(in.d), false, time.Unix(now, 0))
 	vfAssert(err == nil, "C04 merge does not fail")
@@ -339,6 +346,7 @@ func HarnessC04_RingAdoption() {
 		if chM != nil {
 			c, inCh := chM.(*Desc).Ingesters[vfIDs[0]]
 			vfAssert(inCh && c.State == LEFT && c.Timestamp == tomb.ts, "C04 an adopted tombstone is forwarded to peers")
+			vfAssert(len(c.Tokens) == 0, "C04 a forwarded tombstone carries no tokens")
 		}
 		// readers of this replica no longer see the entry
 		view := vfCloneDesc(st)
